@@ -46,9 +46,9 @@ def plan(tier):
     qs = []
     rs = renderings(th)
     if not th:
-        # quick: every third rendering plus the ones that permute items / use -- (a different third per seed)
+        # quick: every fourth rendering plus the ones that permute items / use -- (a different third per seed)
         seed = int(os.environ.get('VERIF_SEED', '0') or 0)
-        rs = [r for i, r in enumerate(rs) if i % 3 == seed % 3 or '--' in r]
+        rs = [r for i, r in enumerate(rs) if i % 4 == seed % 4 or '--' in r]
     for r in rs:
         wit = [W_OK]
         qs.append(Q(P, 1, r, wit=wit, k=4, est_gb=4))
